@@ -205,3 +205,63 @@ func chanElemIsInt(v ssa.Value) bool {
 	b, ok := ch.Elem().Underlying().(*types.Basic)
 	return ok && b.Kind() == types.Int
 }
+
+// checkErrorsNotSwallowed: in fn (a function whose last result is an error),
+// no path that has seen a call fail — it took the `x != nil` edge of a test of
+// an error value produced by a call — returns a nil error, unless the failure
+// is of a call listed in tolerated (by callee name). This catches an error
+// assigned to a shadowed variable, a missing return after wrapping, a `continue`
+// that forgets the failure.
+func checkErrorsNotSwallowed(p *core.Program, r *core.Report, fn *ssa.Function, prefix string, tolerated map[string]bool) {
+	res := fn.Signature.Results()
+	if res.Len() == 0 || !isErrorType(res.At(res.Len()-1).Type()) || fn.Blocks == nil {
+		return
+	}
+	errIx := res.Len() - 1
+	pe := &core.PathEnum{Fn: fn, Bind: map[ssa.Value]int64{}, MaxUnknownVisits: 1, MaxPaths: 3000}
+	pe.Run()
+	key := prefix + "errors-not-swallowed/" + fname(fn)
+	rule := "a function that returns an error does not return nil on a path on which one of its calls failed (the failure was tested and found non-nil)"
+	if pe.Trunc {
+		r.Note(key, rule+" — not decided for this function (too many paths)", p.Pos(fn.Pos()), "")
+		return
+	}
+	var bad []string
+	seen := map[string]bool{}
+	for _, pr := range pe.Paths {
+		if pr.Panics || pr.ErrOutcome(errIx) != "nil" {
+			continue
+		}
+		for _, c := range pr.State.Taken {
+			x, isNil, ok := core.NilCmp(c)
+			if !ok || isNil || !isErrorType(x.Type()) {
+				continue
+			}
+			x = pr.State.Resolve(x)
+			var call *ssa.Call
+			switch v := x.(type) {
+			case *ssa.Call:
+				call = v
+			case *ssa.Extract:
+				call, _ = v.Tuple.(*ssa.Call)
+			}
+			if call == nil {
+				continue
+			}
+			name := core.CalleeName(call)
+			if name == "" && call.Common().IsInvoke() {
+				name = "invoke." + call.Common().Method.Name()
+			}
+			if tolerated[shortName(name)] {
+				continue
+			}
+			// the most recent test of this value on the path must be the failing one (loops re-test)
+			d := p.Pos(call.Pos()) + " (" + shortName(name) + ")"
+			if !seen[d] {
+				seen[d] = true
+				bad = append(bad, d)
+			}
+		}
+	}
+	r.Check(len(bad) == 0, key, rule, p.Pos(fn.Pos()), "", "nil is returned although the call at "+strings.Join(bad, ", ")+" failed on that path: the caller takes a partial result for a success")
+}
